@@ -4,6 +4,8 @@ import (
 	"fmt"
 	"go/ast"
 	"go/token"
+	"os"
+	"path/filepath"
 	"sort"
 	"strconv"
 	"strings"
@@ -266,5 +268,210 @@ func extractC10(c *Ctx) error {
 	})
 	c.P("Definition set_on_chain_mutations : list string := %s.", CoqStrList(mut))
 	c.Info("set_on_chain_mutations", mut)
+	if err := extractC10Ids(c, ef, vf); err != nil {
+		return err
+	}
+	return extractC10Callers(c)
+}
+
+func oneLine(s string) string { return strings.Join(strings.Fields(s), " ") }
+
+// callSet: the callee expressions of every call inside n, sorted, without duplicates.
+func callSet(c *Ctx, n ast.Node) []string {
+	set := map[string]bool{}
+	ast.Inspect(n, func(x ast.Node) bool {
+		if ce, ok := x.(*ast.CallExpr); ok {
+			set[oneLine(c.Src(ce.Fun))] = true
+		}
+		return true
+	})
+	out := SortedSet(set)
+	sort.Strings(out)
+	return out
+}
+
+// normalising: calls that fold, trim or otherwise rewrite a string before it is compared
+// (package strings / unicode / cases / norm / bytes, or a method / function whose name says so).
+func normalisingCalls(calls []string) []string {
+	var out []string
+	for _, f := range calls {
+		l := strings.ToLower(f)
+		last := l
+		if i := strings.LastIndex(l, "."); i >= 0 {
+			last = l[i+1:]
+		}
+		switch {
+		case strings.HasPrefix(l, "strings."), strings.HasPrefix(l, "unicode."), strings.HasPrefix(l, "cases."),
+			strings.HasPrefix(l, "norm."), strings.HasPrefix(l, "bytes."), strings.HasPrefix(l, "regexp."),
+			strings.Contains(last, "lower"), strings.Contains(last, "upper"), strings.Contains(last, "fold"),
+			strings.Contains(last, "trim"), strings.Contains(last, "normal"), strings.Contains(last, "canonical"),
+			strings.Contains(last, "title"), strings.Contains(last, "replace"), strings.Contains(last, "hasprefix"),
+			strings.Contains(last, "hassuffix"), strings.Contains(last, "contains"):
+			out = append(out, f)
+		}
+	}
+	return out
+}
+
+// extractC10Ids: how chain reference ids and chain types are compared by the code behind the
+// snapshot's "account on every active chain" filter: evm Keeper.MissingChains (set of the input ids,
+// walk over the chain infos) and valset Keeper.ValidatorSupportsAllChains (what it feeds in, how it
+// reads the result), and the constant the chain type is compared with.
+func extractC10Ids(c *Ctx, ef, vf *ast.File) error {
+	mc := FindFunc(ef, "Keeper", "MissingChains")
+	if mc == nil {
+		return fmt.Errorf("MissingChains not found")
+	}
+	if mc.Type.Params == nil || len(mc.Type.Params.List) != 2 || len(mc.Type.Params.List[1].Names) != 1 {
+		return fmt.Errorf("MissingChains: parameter list not recognised")
+	}
+	input := mc.Type.Params.List[1].Names[0].Name
+	var build, walk []string
+	nRange := 0
+	for _, st := range mc.Body.List {
+		rs, ok := st.(*ast.RangeStmt)
+		if !ok {
+			continue
+		}
+		nRange++
+		head := "range " + oneLine(c.Src(rs.X)) + " -> " + oneLine(c.Src(rs.Value))
+		var body []string
+		for _, b := range rs.Body.List {
+			body = append(body, oneLine(c.Src(b)))
+		}
+		if oneLine(c.Src(rs.X)) == input {
+			build = append([]string{head}, body...)
+		} else {
+			walk = append([]string{head}, body...)
+		}
+	}
+	if nRange != 2 || build == nil || walk == nil {
+		return fmt.Errorf("MissingChains: expected one loop over the input ids and one over the chain infos, found %d loops", nRange)
+	}
+	calls := callSet(c, mc.Body)
+	c.P("(* x/evm/keeper/keeper.go MissingChains: the set of input ids, the walk over the chain infos, every callee *)")
+	c.P("Definition missing_chains_set_build : list string := %s.", CoqStrList(build))
+	c.P("Definition missing_chains_walk : list string := %s.", CoqStrList(walk))
+	c.P("Definition missing_chains_calls : list string := %s.", CoqStrList(calls))
+	c.P("Definition missing_chains_normalising_calls : list string := %s.", CoqStrList(normalisingCalls(calls)))
+	c.Info("missing_chains_walk", walk)
+	c.Info("missing_chains_normalising_calls", normalisingCalls(calls))
+
+	vs := FindFunc(vf, "Keeper", "ValidatorSupportsAllChains")
+	if vs == nil {
+		return fmt.Errorf("ValidatorSupportsAllChains not found")
+	}
+	var mcCall *ast.CallExpr
+	for _, ce := range Calls(vs.Body, "MissingChains") {
+		mcCall = ce
+	}
+	if mcCall == nil || len(mcCall.Args) != 2 {
+		return fmt.Errorf("ValidatorSupportsAllChains: call of MissingChains not recognised")
+	}
+	arg := oneLine(c.Src(mcCall.Args[1]))
+	elem := ""
+	ast.Inspect(vs.Body, func(n ast.Node) bool {
+		if as, ok := n.(*ast.AssignStmt); ok && len(as.Lhs) == 1 && len(as.Rhs) == 1 {
+			if ix, ok := as.Lhs[0].(*ast.IndexExpr); ok && oneLine(c.Src(ix.X)) == arg {
+				elem = oneLine(c.Src(as.Rhs[0]))
+			}
+		}
+		return true
+	})
+	if elem == "" {
+		return fmt.Errorf("ValidatorSupportsAllChains: how %s is filled not recognised", arg)
+	}
+	res := ""
+	if n := len(vs.Body.List); n > 0 {
+		if rs, ok := vs.Body.List[n-1].(*ast.ReturnStmt); ok && len(rs.Results) == 1 {
+			res = oneLine(c.Src(rs.Results[0]))
+		}
+	}
+	if res == "" {
+		return fmt.Errorf("ValidatorSupportsAllChains: final return not recognised")
+	}
+	vcalls := callSet(c, vs.Body)
+	c.P("(* x/valset/keeper/keeper.go ValidatorSupportsAllChains *)")
+	c.P("Definition supports_all_input_element : string := %s.", CoqStr(elem))
+	c.P("Definition supports_all_result : string := %s.", CoqStr(res))
+	c.P("Definition supports_all_normalising_calls : list string := %s.", CoqStrList(normalisingCalls(vcalls)))
+	c.Info("supports_all_result", res)
+
+	// var xchainType = xchain.Type("evm")
+	sf, err := c.Parse("x/evm/keeper/scheduler_job.go")
+	if err != nil {
+		return err
+	}
+	xt := ""
+	ast.Inspect(sf, func(n ast.Node) bool {
+		vsp, ok := n.(*ast.ValueSpec)
+		if !ok || len(vsp.Names) != 1 || vsp.Names[0].Name != "xchainType" || len(vsp.Values) != 1 {
+			return true
+		}
+		if ce, ok := vsp.Values[0].(*ast.CallExpr); ok && len(ce.Args) == 1 && oneLine(c.Src(ce.Fun)) == "xchain.Type" {
+			if bl, ok := ce.Args[0].(*ast.BasicLit); ok && bl.Kind == token.STRING {
+				if v, err := strconv.Unquote(bl.Value); err == nil {
+					xt = v
+				}
+			}
+		}
+		return true
+	})
+	if xt == "" {
+		return fmt.Errorf("x/evm/keeper/scheduler_job.go: var xchainType = xchain.Type(\"…\") not recognised")
+	}
+	c.P("(* x/evm/keeper/scheduler_job.go: var xchainType = xchain.Type(%q) *)", xt)
+	c.P("Definition xchain_type : string := %s.", CoqStr(xt))
+	c.Info("xchain_type", xt)
+	return nil
+}
+
+// extractC10Callers: who calls the three writers of the snapshot store, over every non-test .go file
+// of the tree (syntactic, by selector name).  SaveModifiedSnapshot ("needed for integration tests")
+// must have no caller: it is not an operation of the history model.
+func extractC10Callers(c *Ctx) error {
+	callers := map[string]map[string]bool{"SaveModifiedSnapshot": {}, "setSnapshotAsCurrent": {}, "SetSnapshotOnChain": {}, "TriggerSnapshotBuild": {}}
+	err := filepath.WalkDir(c.Repo, func(path string, d os.DirEntry, err error) error {
+		if err != nil {
+			return err
+		}
+		if d.IsDir() {
+			n := d.Name()
+			if path != c.Repo && (strings.HasPrefix(n, ".") || n == "tests" || n == "testutil" || n == "mocks" || n == "node_modules" || n == "vendor") {
+				return filepath.SkipDir
+			}
+			return nil
+		}
+		n := d.Name()
+		if !strings.HasSuffix(n, ".go") || strings.HasSuffix(n, "_test.go") || strings.HasPrefix(n, "verif_hooks") || strings.HasSuffix(n, ".pb.go") || strings.HasSuffix(n, ".pb.gw.go") {
+			return nil
+		}
+		rel, _ := filepath.Rel(c.Repo, path)
+		f, perr := c.Parse(rel)
+		if perr != nil {
+			return nil // not our business here (generated / broken files are caught by the build)
+		}
+		for _, dcl := range f.Decls {
+			fd, ok := dcl.(*ast.FuncDecl)
+			if !ok || fd.Body == nil {
+				continue
+			}
+			for name := range callers {
+				if len(Calls(fd.Body, name)) > 0 {
+					callers[name][filepath.ToSlash(filepath.Dir(rel))+":"+fd.Name.Name] = true
+				}
+			}
+		}
+		return nil
+	})
+	if err != nil {
+		return err
+	}
+	for _, name := range []string{"SaveModifiedSnapshot", "setSnapshotAsCurrent", "SetSnapshotOnChain", "TriggerSnapshotBuild"} {
+		l := SortedSet(callers[name])
+		sort.Strings(l)
+		c.P("Definition callers_of_%s : list string := %s.", name, CoqStrList(l))
+		c.Info("callers_of_"+name, l)
+	}
 	return nil
 }
